@@ -153,10 +153,29 @@ theorem C09_main_from (cfg : Cfg) (w : World) (g : Ghost) (evs : List Ev) (hI : 
 can reach, a target connection arriving on any node for tunnel `tid` is forwarded to the address the
 tunnel's source node has registered *last* — however many tunnels this node forwarded to that node
 before, and whatever addresses the node had earlier; with no live non-empty address nothing is
-dialled; an id that does not resolve is not forwarded. -/
+dialled; an id that does not resolve is not forwarded; a tunnel whose source node is this very node
+is attached to the local bridge instead (`processCrossNodeForward`). -/
 theorem C09_forward_current_address (cfg : Cfg) (w : World) (g : Ghost) (n : Nat) (tid : String)
     (hI : Inv cfg.backend w g) (hn : wfNode cfg.backend n = true) :
-    check cfg g (.fwd n tid) (forwardTarget cfg w n tid).2 = true := (fwd_ok cfg w g n tid hI.1 hn).1
+    check cfg g (.fwd n tid) (forwardTarget cfg w n tid).2 = true := (fwd_ok cfg w g n tid hI.1 hI.2 hn).1
+
+/-- **Polling clause** (also part of `C09_main`): from any reachable state, the first `k` polls of the
+target node's polling lookup return the registered record iff the id is in its waiting period, and
+otherwise leave the lookup polling; one more poll followed by the end of its context returns the
+record or a timeout — never a stale or foreign record, whatever was registered, removed, lapsed or
+restarted between the polls (the events between `pollStart` and `pollEnd` are arbitrary). -/
+theorem C09_polling_lookup (cfg : Cfg) (w : World) (g : Ghost) (n : Nat) (tid : String) (k : Nat)
+    (hI : Inv cfg.backend w g) (hn : wfNode cfg.backend n = true) :
+    check cfg g (.pollStart n tid k) (pollLoop cfg n tid k w).2 = true ∧
+    check cfg g (.pollEnd n tid) (pollEnd cfg w n tid).2 = true :=
+  ⟨(poll_ok cfg g n tid hn k w hI.1).1, (pollEnd_ok cfg w g n tid hI.1 hn).1⟩
+
+/-- **Restart clause**: a crash-restart of any node keeps the invariant — the records and addresses
+other nodes resolve are untouched; only that node's bridges are gone. -/
+theorem C09_restart_keeps_routing (cfg : Cfg) (w : World) (g : Ghost) (n : Nat) (hI : Inv cfg.backend w g)
+    (hb : (cfg.backend != .hybridLocal) = true) :
+    Inv cfg.backend (restartNode cfg w n) { g with bridges := fun m t => if m = n then false else g.bridges m t } :=
+  restart_ok cfg w g n hI hb
 
 /-! ## Non-vacuity and excluded points -/
 
@@ -197,6 +216,21 @@ example : run ⟨.redis, [0, 0, 0]⟩
 example : holds ⟨.redis, [0, 0, 0]⟩
     [.regAddr 0 "node-0" "@0", .reg 0 rT1, .fwd 2 "T1", .regAddr 0 "node-0" "@2", .reg 0 rT2, .fwd 2 "T2"]
     [.ok, .ok, .forwarded "node-0" "@0", .ok, .ok, .forwarded "node-0" "@0"] = false := by decide +kernel
+
+/-- Polling across a registration, a removal and a restart: two polls miss, the tunnel is registered,
+the next poll returns it; a poll after the removal times out; the record of a crashed node still
+resolves (until removed or lapsed), its bridge does not block a new one. -/
+example : run ⟨.hybridRedis, [0, 0, 0]⟩
+    [.pollStart 2 "T1" 2, .reg 0 rT1, .pollEnd 2 "T1", .rem 1 "T1", .pollStart 2 "T1" 1, .pollEnd 2 "T1",
+     .open_ 0 rT2, .restart 0, .pollStart 1 "T2" 3, .open_ 0 rT2] =
+    [.pending, .ok, .found { rT1 with createdAt := wall0, expiresAt := wall0 + 30000 }, .ok, .pending, .timeout,
+     .ok, .skip, .found { rT2 with createdAt := wall0, expiresAt := wall0 + 30000 }, .ok] := by decide +kernel
+
+/-- The predicate rejects a polling lookup that gives up although the id is waiting, and one that
+returns a record after the removal. -/
+example : holds ⟨.memory, [0, 0]⟩ [.reg 0 rT1, .pollStart 1 "T1" 2] [.ok, .pending] = false := by decide +kernel
+example : holds ⟨.memory, [0, 0]⟩ [.reg 0 rT1, .rem 0 "T1", .pollEnd 1 "T1"] [.ok, .ok, .found rT1] = false := by
+  decide +kernel
 
 /-- Excluded point 1 (why `wfNode`): a tiered store without shared cache keeps the record in the
 registering node's memory, another node does not find it. -/
